@@ -5,6 +5,7 @@ D=$(mktemp -d /tmp/vfm.XXXXXX)
 S=$(mktemp -d /tmp/vfs.XXXXXX)
 git -C /repo worktree add --detach "$D" HEAD >/dev/null 2>&1 || { echo "worktree failed"; exit 9; }
 trap 'git -C /repo worktree remove --force "$D" >/dev/null 2>&1; rm -rf "$D" "$S"' EXIT
+cp /repo/spsdk/__version__.py "$D/spsdk/" 2>/dev/null
 git -C "$D" apply "$PATCH" || { echo "patch does not apply"; exit 9; }
 cd /verif
 for id in "$@"; do
